@@ -741,11 +741,11 @@ class World:
         rec['frames_sync'] = len(self.stream.frames) - n0
         return rec
 
-    def req(self, cmd, cid=b'cid', **props):
+    def req(self, _command, _cid=b'cid', **props):
         self.next_mid += 1
         mid = 'm%d' % self.next_mid
-        payload = json.dumps({'id': mid, 'command': cmd, 'properties': props}).encode()
-        self.send_raw(payload, cid=cid, mid=mid, meta={'cmd': cmd, 'props': props})
+        payload = json.dumps({'id': mid, 'command': _command, 'properties': props}).encode()
+        self.send_raw(payload, cid=_cid, mid=mid, meta={'cmd': _command, 'props': props})
         return mid
 
     def replies(self):
@@ -776,9 +776,9 @@ class World:
         return r
 
     @gen.coroutine
-    def call(self, cmd, **props):
+    def call(self, _command, **props):
         """send a request and wait (virtual time, bounded) for its reply"""
-        mid = self.req(cmd, **props)
+        mid = self.req(_command, **props)
         r = self.reply(mid)
         waited = 0.0
         while r is None and waited < 600 and self.stalled is None:
@@ -868,8 +868,8 @@ class World:
         snap['per'] = per
         return snap
 
-    def _ask(self, cmd, **props):
-        mid = self.req(cmd, **props)
+    def _ask(self, _command, **props):
+        mid = self.req(_command, **props)
         r = self.reply(mid)
         return r if isinstance(r, dict) else {}
 
